@@ -282,7 +282,7 @@ def _plan(ctx, dumps, ints, status, known):
     return plan
 
 
-LIT_BUDGET = 1500      # binary64 literals per generated data file (coqc reads ~700 literals/s)
+LIT_BUDGET = 2500      # binary64 literals per generated data file
 
 
 def _write(ctx, dumps, ints, status, plan, kx, nm):
